@@ -107,27 +107,37 @@ Proof.
   apply server_x_spec; [apply powm_spec|exact N3072_pos|assumption].
 Qed.
 
-(* ------------------------------------------------------------ one concrete exchange
-   in the real group, evaluated: all-zero salt, setup code "111-22-333",
-   a = 2^100 + 7, b = 3^70.  Client succeeds, A_b has 384 bytes, the accessory
-   accepts M1, keys agree, the client accepts M2 and rejects M2 with one bit flipped. *)
-Definition exchange_check (I P salt : bytes) (a b : Z) : bool :=
-  let B_b := s_B_b (hap_server_x powm_fast I P salt b [] []) in
-  match hap_client powm_fast I P a salt B_b with
+(* ------------------------------------------------------------ non-vacuity of the generic theorem:
+   a toy instance (hash = one byte of checksum, group N = 2027, g = 2, 2-byte keys)
+   meets every hypothesis of [exchange], and the exchange evaluates as the theorem says.
+   (Exchanges in the real 3072-bit group are evaluated by every correspondence run;
+   one is not kept here because coqchk re-evaluates it without the VM: ~5 min.) *)
+Definition toyH (m : bytes) : bytes := ((fold_left N.add m 0 + N.of_nat (length m)) mod 251)%N :: nil.
+
+Definition toy_exchange_check : bool :=
+  let Nm := 2027 in
+  let g := 2 in
+  let kc := spec_k toyH Nm g 2 in
+  let hg := spec_hgroup toyH Nm g 2 in
+  let I := [80; 97; 105; 114]%N in
+  let P := [49; 50; 51]%N in
+  let salt := (0 :: 0 :: repeat 7 14)%N in
+  let a := 77 in
+  let b := 13 in
+  let B_b := sv_public toyH Nm g 2 I P salt b in
+  match client toyH powm Nm g kc hg 2 16 I P a salt B_b with
   | Ok r =>
-      let s := hap_server_x powm_fast I P salt b (r_A_b r) (r_M1 r) in
-      Nat.eqb (length (r_A_b r)) 384 && s_ok s && beq (r_K r) (s_K s) &&
-      cl_accepts r (s_M2 s) && negb (cl_accepts r (flip_bit (s_M2 s) 63 0))
+      let s := server toyH Nm g 2 I P salt b (r_A_b r) (r_M1 r) in
+      Nat.eqb (length (r_A_b r)) 2 && s_ok s && beq (r_K r) (s_K s) && (r_S r =? s_S s) &&
+      cl_accepts r (s_M2 s) && negb (cl_accepts r (flip_bit (s_M2 s) 0 3))
   | _ => false
   end.
 
-Definition nonvacuous_exchange_check : bool :=
-  exchange_check [80; 97; 105; 114; 45; 83; 101; 116; 117; 112]%N
-                 [49; 49; 49; 45; 50; 50; 45; 51; 51; 51]%N
-                 (repeat 0%N 16) (2 ^ 100 + 7) (3 ^ 70).
-
-Lemma nonvacuous_exchange_ok : nonvacuous_exchange_check = true.
-Proof. vm_cast_no_check (eq_refl true). Qed.
+Lemma toy_exchange_ok :
+  toy_exchange_check = true /\
+  1 < 2027 /\ Z.gcd 2 2027 = 1 /\ (Z.to_N 2027 <= P256 2)%N /\
+  length (0 :: 0 :: repeat 7 14)%N = 16%nat /\ all_bytes (0 :: 0 :: repeat 7 14)%N = true.
+Proof. vm_compute. repeat split; try reflexivity; discriminate. Qed.
 
 (* the input-decoding glue of the case files agrees with [bytes_of] (samples) *)
 Example bytes_of_fast_samples :
